@@ -21,15 +21,13 @@ def canon_mapping(m):
     if not isinstance(m, pd.DataFrame):
         return ("notdf", repr(type(m)))
     cols = sorted(str(c) for c in m.columns)
-    rows = []
     mm = m.copy()
     mm.columns = [str(c) for c in mm.columns]
-    idx = list(mm.index)
-    for i, (_, r) in zip(idx, mm.iterrows()):
-        row = [_cell(i)]
-        for c in cols:
-            row.append(_cell(r[c]))
-        rows.append(tuple(row))
+    if len(set(mm.columns)) != len(mm.columns):
+        return ("dupcols", tuple(mm.columns))
+    vals = mm[cols].to_numpy(dtype=object) if len(cols) else np.empty((len(mm), 0), dtype=object)
+    idx = mm.index.to_numpy()
+    rows = [tuple([_cell(i)] + [_cell(v) for v in row]) for i, row in zip(idx, vals)]
     return (tuple(cols), tuple(rows))
 
 
